@@ -318,11 +318,124 @@ def classical_search(cp, max_goals=6):
     return plans, True
 
 
-def scenario(seed, failures, stats):
+class KernelContracts:
+    """run-time contracts (post-conditions, taken from the docstrings' definitions) wrapped around the real
+    Ks0Compiler._get_relevance_relation and _reduce_possible_initial_states_to_basis for the duration of one compile"""
+
+    def __init__(self):
+        self.violations = []
+        self.calls = 0
+
+    def __enter__(self):
+        self._rel = Ks0Compiler.__dict__["_get_relevance_relation"]
+        self._red = Ks0Compiler.__dict__["_reduce_possible_initial_states_to_basis"]
+        real_rel = self._rel.__func__
+        real_red = self._red.__func__
+        me = self
+
+        def rel(prepared, em):
+            r = real_rel(prepared, em)
+            me.calls += 1
+            neg = {}
+            for f in prepared.ground_fluent_expressions:
+                neg[f] = em.Not(f)
+                neg[em.Not(f)] = f
+            for a in r:
+                if a not in r[a]:
+                    me.violations.append(f"relevance relation is not reflexive at {a}")
+            for pa in prepared.prepared_actions:
+                for rule in pa.effect_rules:
+                    for c in rule.condition_literals:
+                        if rule.target_literal not in r[c]:
+                            me.violations.append(f"relevance relation misses the effect edge {c} -> {rule.target_literal}")
+            for a in r:
+                for b in r[a]:
+                    if not r[b] <= r[a]:
+                        me.violations.append(f"relevance relation is not transitively closed: {a} -> {b} -> {sorted(map(str, r[b] - r[a]))[:2]}")
+                    if neg[b] not in r[neg[a]]:
+                        me.violations.append(f"relevance relation is not closed under the complement rule: {a} -> {b} but not {neg[a]} -> {neg[b]}")
+            return r
+
+        def red(cls_, problem, prepared, states):
+            kept = real_red(cls_, problem, prepared, states)
+            if len(states) > 1 and len(prepared.merge_targets) > 0:
+                em = problem.environment.expression_manager
+                relv = real_rel(prepared, em)
+
+                def lits(st):
+                    return frozenset(f if st.get_value(f).bool_constant_value() else em.Not(f) for f in prepared.ground_fluent_expressions)
+                for tgt in prepared.merge_targets:
+                    src = {a for a, ts in relv.items() if tgt in ts}
+                    kept_sets = [lits(k) & src for k in kept]
+                    for st in states:
+                        mine = lits(st) & src
+                        if not any(ks <= mine for ks in kept_sets):
+                            me.violations.append(f"basis reduction dropped a state that no kept state dominates for target {tgt}")
+            if not set(map(id, kept)) <= set(map(id, states)) or (len(states) > 0 and len(kept) == 0):
+                me.violations.append("basis reduction returned states that were not given (or none)")
+            return kept
+        Ks0Compiler._get_relevance_relation = staticmethod(rel)
+        Ks0Compiler._reduce_possible_initial_states_to_basis = classmethod(red)
+        return self
+
+    def __exit__(self, *a):
+        Ks0Compiler._get_relevance_relation = self._rel
+        Ks0Compiler._reduce_possible_initial_states_to_basis = self._red
+        return False
+
+
+def build_chain(rng):
+    """crafted family: relevance only through a chain mixing direct effect edges and complement edges
+    (`when p then q := T` ; `when not q then g := F`), states differing on the far end of the chain"""
+    pr = Problem("chain")
+    names = ["p", "q", "g", "d", "h"]
+    fl = {n: Fluent(n, BoolType()) for n in names}
+    for f in fl.values():
+        pr.add_fluent(f, default_initial_value=False)
+    order = names[:3]
+    rng.shuffle(order)
+    a0, a1, a2 = order
+    pol = [rng.random() < 0.5 for _ in range(4)]
+
+    def lit(n, positive):
+        return fl[n]() if positive else Not(fl[n]())
+    prime = InstantaneousAction("prime")
+    prime.add_effect(fl[a1](), pol[0], lit(a0, pol[1]))
+    fire = InstantaneousAction("fire")
+    fire.add_effect(fl["d"](), True)
+    fire.add_effect(fl[a2](), pol[2], lit(a1, not pol[0] if rng.random() < 0.7 else pol[0]))
+    pr.add_action(prime)
+    pr.add_action(fire)
+    if rng.random() < 0.5:
+        extra = InstantaneousAction("extra")
+        extra.add_effect(fl["h"](), True, lit(rng.choice(names[:3]), rng.random() < 0.5))
+        pr.add_action(extra)
+    pr.add_goal(lit(a2, not pol[2]))
+    pr.add_goal(fl["d"]())
+    keys = all_keys(pr)
+    base = {k: False for k in keys}
+    for k in keys:
+        if k[0].name == a2:
+            base[k] = not pol[2]
+        if k[0].name == a1:
+            base[k] = not pol[0]
+    s0, s1 = dict(base), dict(base)
+    for k in keys:
+        if k[0].name == a0:
+            s0[k], s1[k] = pol[1], not pol[1]
+    states = [s0, s1] if rng.random() < 0.5 else [s1, s0]
+    return pr, states
+
+
+def scenario(seed, failures, stats, chain=False):
     rng = random.Random(seed)
-    contingent = rng.random() < 0.35
-    pr, objs, fl = build(rng, contingent)
-    label = {"seed": seed, "input": "contingent" if contingent else "explicit states"}
+    contingent = rng.random() < 0.35 and not chain
+    if chain:
+        pr, chain_states = build_chain(rng)
+        objs = fl = None
+    else:
+        pr, objs, fl = build(rng, contingent)
+    label = {"seed": seed, "input": "crafted chain" if chain else ("contingent" if contingent else "explicit states")}
 
     def bad(what, observed=None):
         if what not in {f["what"] for f in failures}:
@@ -330,6 +443,9 @@ def scenario(seed, failures, stats):
     if contingent:
         states = add_constraints(pr, objs, fl, rng)
         comp = Ks0Compiler()
+    elif chain:
+        states = chain_states
+        comp = Ks0Compiler(possible_initial_states=[to_upstate(pr, s) for s in states])
     else:
         states = states_explicit(pr, rng)
         comp = Ks0Compiler(possible_initial_states=[to_upstate(pr, s) for s in states])
@@ -339,7 +455,11 @@ def scenario(seed, failures, stats):
         stats["unsupported"] += 1
         return
     try:
-        res = comp.compile(pr, CompilationKind.CONFORMANT_TO_CLASSICAL)
+        with KernelContracts() as kc:
+            res = comp.compile(pr, CompilationKind.CONFORMANT_TO_CLASSICAL)
+        stats["kernel_calls"] = stats.get("kernel_calls", 0) + kc.calls
+        for v in kc.violations[:2]:
+            bad("kernel contract: " + v.split(":")[0].split(" at ")[0], v[:400])
     except up.exceptions.UPUsageError as ex:
         # documented rejections (a condition that is not a conjunction of literals after normalisation, a goal that
         # simplifies to false): there is no compiled problem to judge; counted, not reported here (C08 covers compile errors)
@@ -402,10 +522,17 @@ def bounded(tier, seed):
             scenario(seed * 100003 + i, failures, stats)
             if len(failures) >= 8:
                 break
+        for i in range(n // 2):
+            scenario(seed * 100003 + 50000 + i, failures, stats, chain=True)
+            if len(failures) >= 8:
+                break
     return {"evaluations": stats["n"], "distinct_nontrivial": len(stats["distinct"]), "failures": failures[:8],
             "rule": f"{n} generated Boolean conformant problems (4 ground fluents, 2-3 actions, conditional/forall effects, negative/disjunctive/quantified "
                     f"conditions, 1-4 possible initial states incl. dominated ones; 35% contingent input); per problem: BFS of the compiled state space "
-                    f"(<= {CAP} states, <= 6 goal paths) + exhaustive belief-space BFS; undecided (cap) {stats['capped']}, unsupported {stats['unsupported']}",
+                    f"(<= {CAP} states, <= 6 goal paths) + exhaustive belief-space BFS; plus {n // 2} crafted chain problems (relevance through mixed effect / "
+                    f"complement edges, two states differing at the far end); run-time contracts on the real _get_relevance_relation (reflexive, effect edges, "
+                    f"transitively and complement closed) and _reduce_possible_initial_states_to_basis (every dropped state is dominated per target) in "
+                    f"{stats.get('kernel_calls', 0)} kernel calls; undecided (cap) {stats['capped']}, unsupported {stats['unsupported']}",
             "samples": [{"capped": stats["capped"], "unsupported": stats["unsupported"], "ambiguous": stats["ambiguous"], "rejected_by_compile": stats.get("rejected", 0)}], "bound": f"{n} problems"}
 
 
@@ -414,7 +541,7 @@ def replay_file(data):
     failures, stats = [], {"n": 0, "distinct": set(), "unsupported": 0, "capped": 0, "ambiguous": 0}
     with warnings.catch_warnings():
         warnings.simplefilter("ignore")
-        scenario(c.get("seed", 0), failures, stats)
+        scenario(c.get("seed", 0), failures, stats, chain=c.get("input") == "crafted chain")
     return {"reproduced": bool(failures), "concrete": c, "observed": [f["what"] for f in failures][:4]}
 
 
